@@ -309,6 +309,7 @@ func c17e2e(c *wk.Ctx) {
 
 func c17migrate(c *wk.Ctx, idx int, r *rand.Rand, configured bool, inflight int) {
 	dc := 2 + r.Intn(4)
+	migrateCode := []int32{303, 303, 400, 420, 500, 406}[r.Intn(6)]
 	var migrated sync.Map // uid -> true once refused by dc1
 	var e *rpcEnv
 	var srv2 *refserver.Server
@@ -325,7 +326,7 @@ func c17migrate(c *wk.Ctx, idx int, r *rand.Rand, configured bool, inflight int)
 		if p.kind == "object" {
 			// dc1 refuses: this account lives in another data centre
 			migrated.Store(p.uid, true)
-			b := refserver.RPCResult(p.msgID, refserver.RPCError(303, fmt.Sprintf("PHONE_MIGRATE_%d", dc)))
+			b := refserver.RPCResult(p.msgID, refserver.RPCError(migrateCode, fmt.Sprintf("PHONE_MIGRATE_%d", dc)))
 			e.sendGroup(p.conn, [][]byte{b}, []uint64{p.uid}, false)
 			return true
 		}
@@ -388,7 +389,7 @@ func c17migrate(c *wk.Ctx, idx int, r *rand.Rand, configured bool, inflight int)
 	case rec.Panic != "":
 		c.Viol("C17", idx, fmt.Sprintf("e2e/migrate-panic/configured=%v", configured), rec.Panic, nil)
 	case configured && (!rec.OK || at2 < 1):
-		c.Viol("C17", idx, "e2e/migrate-not-repeated", fmt.Sprintf("PHONE_MIGRATE_%d with DC %d configured: request arrived %d times at the new data centre; call returned ok=%v err=%q got=%q", dc, dc, at2, rec.OK, rec.Err, rec.Got), nil)
+		c.Viol("C17", idx, fmt.Sprintf("e2e/migrate-not-repeated/code=%d", migrateCode), fmt.Sprintf("PHONE_MIGRATE_%d (error code %d) with DC %d configured: request arrived %d times at the new data centre; call returned ok=%v err=%q got=%q", dc, migrateCode, dc, at2, rec.OK, rec.Err, rec.Got), nil)
 	case !configured && (rec.Err == "" || at2 != 0):
 		c.Viol("C17", idx, "e2e/migrate-unconfigured-not-error", fmt.Sprintf("PHONE_MIGRATE_%d with DC %d NOT configured: err=%q, arrivals at the other server %d", dc, dc, rec.Err, at2), nil)
 	}
